@@ -294,7 +294,7 @@ def observe_ops(m, env):
         # transactions: rolled back after the edited structure was looked at, and committed
         ring_reads = ('sssr', 'rings_count', 'atoms_rings_sizes', 'not_special_connectivity')
         comp_reads = ('connected_components', 'connected_components_count')
-        small = n <= 26          # the transaction family runs on the smaller inputs (time)
+        small = n <= 20          # the transaction family runs on the smaller inputs (time)
         rb = next(((r[0], r[-1]) for r in m.sssr), None) if small else None          # a ring bond (closure of the first SSSR ring)
         lb = next(((a, b) for a in reversed(ks) for b in m._bonds[a]), None) if small else None
         if rb is not None:
@@ -305,7 +305,6 @@ def observe_ops(m, env):
             edit('failed transaction: bond deleted, components and rings read', transaction(lambda c: c.delete_bond(*lb), comp_reads + ring_reads, True), restores=True)
         if far is not None and small:
             edit('failed transaction: bond added, rings read', transaction(lambda c: c.add_bond(ks[0], far, 1), ring_reads + comp_reads, True), restores=True)
-            edit('committed transaction: bond added, rings read', transaction(lambda c: c.add_bond(ks[0], far, 1), ring_reads, False))
         if small:
             edit('failed transaction: atom deleted, everything read', transaction(lambda c: c.delete_atom(ks[-1]), ring_reads + comp_reads, True), restores=True)
             edit('failed transaction: nothing read', transaction(lambda c: c.delete_atom(ks[-1]), (), True), restores=True)
